@@ -79,6 +79,7 @@ class Engine:
         except ImportError:
             pass
         self.assumptions = []  # free-text list of assumed facts (axioms, external contracts)
+        self.hyp_origin = {}  # str(hypothesis term) -> origin tag ('callee-post')
         self._oid = itertools.count(1)
         self._ast_cache = {}
         self._install_builtins()
